@@ -2,6 +2,7 @@
 in-place edits of mutable parts, observers."""
 import collections
 import copy
+import enum
 
 import attr
 
@@ -99,6 +100,7 @@ def mutable_parts(obj, depth=0, path=''):
 
 
 _POOL = {}
+SET_MEMBER_TYPES = {}      # (class, field name) -> enumeration whose members a set-valued field holds (seen in some corpus object)
 
 
 def vector_item_pool():
@@ -121,7 +123,10 @@ def vector_item_pool():
         elif attr.has(type(o)):
             for f in attr.fields(type(o)):
                 try:
-                    walk(getattr(o, f.name), depth + 1)
+                    v = getattr(o, f.name)
+                    if isinstance(v, (set, frozenset)) and v and all(isinstance(x, enum.Enum) for x in v):
+                        SET_MEMBER_TYPES[(type(o), f.name)] = type(next(iter(v)))
+                    walk(v, depth + 1)
                 except AttributeError:
                     pass
         elif isinstance(o, (list, tuple)):
@@ -187,6 +192,16 @@ def edit_in_place(part, k):
         part['verif-key-%d' % k] = None
         return 'dict.setitem'
     if isinstance(part, set):
+        # a set of enumeration members (capability / status flags): another member of the same enumeration, a different
+        # one on every call; other sets get a marker value
+        members = [x for x in part if isinstance(x, enum.Enum)]
+        if members and len(members) == len(part):
+            absent = [m for m in type(members[0]) if m not in part]
+            if absent:
+                part.add(absent[k % len(absent)])
+                return 'set.add(member)'
+            part.discard(members[k % len(members)])
+            return 'set.discard(member)'
         part.add('verif-%d' % k)
         return 'set.add'
     if attr.has(type(part)):
